@@ -23,7 +23,7 @@ RULE = ("One evaluation = one seeded two-client execution (Deferred and "
         "fired or an extra get_*() was issued before its event). Distinct: "
         "event-log digests among non-trivial runs.")
 RULE += (' The i-th message event must carry the i-th message the peer sent (prefix oracle).')
-RULE += (' Observations (primary and extra get_*() Deferreds) are placed in one order: one of a later event never fires while one of an earlier event requested before it is still pending; some configurations use pipelined get_message() readers.')
+RULE += (' Observations (primary and extra get_*() Deferreds) are placed in one order: one of a later event never fires while one of an earlier event requested before it is still pending; some configurations use pipelined get_message() readers (1..3 outstanding; one configuration 11..25 with 20..40 messages each way).')
 RULE += (' No value is handed over after the closed notification; a ninth configuration closes early (error verdicts) with get_*() calls around close().')
 LEVEL_TEXT = ("Seeded exploration; per-side automaton code<key<verifier<"
               "(versions|message)*<closed with once-only counters, versions-"
@@ -52,6 +52,10 @@ def configs(tier):
                     "max_msgs": 4 if tier == "quick" else 8})
     out.append({"spake": "stub", "ordered": True, "early_close": True,
                 "max_msgs": 3})
+    # a consumer that keeps 11..25 get_message() Deferreds outstanding while
+    # 20..40 messages arrive in bursts
+    out.append({"spake": "stub", "ordered": True, "pipeline": "deep",
+                "max_msgs": 40, "min_msgs": 20})
     return out
 
 
